@@ -686,6 +686,11 @@ class propagator_cpmc(propagator_unrestricted):
         prop_data = self.propagate_one_body(trial, ham_data, prop_data, wave_data)
 
         prop_data["weights"] *= jnp.exp(self.dt * (prop_data["pop_control_ene_shift"]))
+        # a walker whose weight is not a number (e.g. 0 * inf for a dead walker) is dead,
+        # as in the phaseless step
+        prop_data["weights"] = jnp.where(
+            jnp.isnan(prop_data["weights"]), 0.0, prop_data["weights"]
+        )
         prop_data["weights"] = jnp.where(
             prop_data["weights"] > 100.0, 0.0, prop_data["weights"]
         )
@@ -802,6 +807,11 @@ class propagator_cpmc_slow(propagator_cpmc, propagator_unrestricted):
         prop_data["overlaps"] = overlaps_new
 
         prop_data["weights"] *= jnp.exp(self.dt * (prop_data["pop_control_ene_shift"]))
+        # a walker whose weight is not a number (e.g. 0 * inf for a dead walker) is dead,
+        # as in the phaseless step
+        prop_data["weights"] = jnp.where(
+            jnp.isnan(prop_data["weights"]), 0.0, prop_data["weights"]
+        )
         prop_data["weights"] = jnp.where(
             prop_data["weights"] > 100.0, 0.0, prop_data["weights"]
         )
@@ -1258,6 +1268,11 @@ class propagator_cpmc_nn(propagator_cpmc, propagator_unrestricted):
         prop_data = self.propagate_one_body(trial, ham_data, prop_data, wave_data)
 
         prop_data["weights"] *= jnp.exp(self.dt * (prop_data["pop_control_ene_shift"]))
+        # a walker whose weight is not a number (e.g. 0 * inf for a dead walker) is dead,
+        # as in the phaseless step
+        prop_data["weights"] = jnp.where(
+            jnp.isnan(prop_data["weights"]), 0.0, prop_data["weights"]
+        )
         prop_data["weights"] = jnp.where(
             prop_data["weights"] > 100.0, 0.0, prop_data["weights"]
         )
@@ -1630,6 +1645,11 @@ class propagator_cpmc_nn_slow(propagator_unrestricted):
         prop_data["overlaps"] = overlaps_new
 
         prop_data["weights"] *= jnp.exp(self.dt * (prop_data["pop_control_ene_shift"]))
+        # a walker whose weight is not a number (e.g. 0 * inf for a dead walker) is dead,
+        # as in the phaseless step
+        prop_data["weights"] = jnp.where(
+            jnp.isnan(prop_data["weights"]), 0.0, prop_data["weights"]
+        )
         prop_data["weights"] = jnp.where(
             prop_data["weights"] > 100.0, 0.0, prop_data["weights"]
         )
@@ -1716,6 +1736,9 @@ class propagator_cpmc_continuous(propagator_unrestricted):
             jnp.where(prop_data["weights"] < 1.0e-8, 0.0, prop_data["weights"])
         )
         prop_data["overlaps"] = overlaps_new
+        prop_data["weights"] = jnp.where(
+            jnp.isnan(prop_data["weights"]), 0.0, prop_data["weights"]
+        )
         prop_data["weights"] = jnp.where(
             prop_data["weights"] > 100.0, 0.0, prop_data["weights"]
         )
